@@ -222,7 +222,7 @@ def _c08_objects(tier, seed):
 
 COMPOSITE["C08"] = [_c08_lists, _c08_queue, _c08_objects, (lambda tier, seed: props_fault.plans(tier, seed)[1])]   # + copies/additions failing half-way
 COMPOSITE["C20"] = [(lambda i: (lambda tier, seed: props_c20.plans(tier, seed)[i]))(i) for i in range(4)]
-COMPOSITE["C09"] = [(lambda i: (lambda tier, seed: props_fault.plans(tier, seed)[i]))(i) for i in range(6)]
+COMPOSITE["C09"] = [(lambda i: (lambda tier, seed: props_fault.plans(tier, seed)[i]))(i) for i in range(7)]
 
 
 def baseline_off():
